@@ -204,10 +204,32 @@ class RealMon(object):
         except Exception:
             pass
 
+    BUDGET_S = 25.0
+
     def type(self, line):
+        """One command line through the real `Monitor.onecmd`, under a time budget: a command that
+        does not return (e.g. a fill over a range the device does not have) is reported as such
+        instead of hanging the check (seeded change C16-3 made `fill` loop over 2^32 addresses)."""
+        import signal
         self.out.seek(0)
         self.out.truncate(0)
-        self.mon.onecmd(line)
+        fired = [False]
+
+        def on_alarm(sig, frame):
+            fired[0] = True
+            raise KeyboardInterrupt()
+        old = signal.signal(signal.SIGALRM, on_alarm)
+        signal.setitimer(signal.ITIMER_REAL, self.BUDGET_S, 0.2)
+        try:
+            try:
+                self.mon.onecmd(line)
+            except KeyboardInterrupt:
+                pass
+        finally:
+            signal.setitimer(signal.ITIMER_REAL, 0)
+            signal.signal(signal.SIGALRM, old)
+        if fired[0]:
+            return 'TIMEOUT: `%s` did not return within %d s\n' % (line[:80], self.BUDGET_S)
         text = self.out.getvalue()
         tail = '\n' + repr(self.mon._mpu) + '\n'
         assert text.endswith(tail), text[-200:]
